@@ -1547,7 +1547,12 @@ uint32_t group_hash(const MessageSpec& p1)
    uint32_t result(0);
 
    for (const auto& pp : p1._fields.get_presence())
+   {
       result = rothash(result, pp._fnum);
+      // definitions with the same members but a different order or different mandatory flags must not share traits
+      result = rothash(result, pp._pos);
+      result = rothash(result, pp._field_traits.has(FieldTrait::mandatory));
+   }
    for (const auto& pp : p1._groups)
       result = rothash(result, group_hash(pp.second));
 
